@@ -424,6 +424,40 @@ def gzclose_releases(ck, P, cfg):
                   "strings) leak, and the caller must not use the handle again" % name, where(fn))
 
 
+
+def gz_stream_pairing(ck, P, cfg):
+    """The gz layer creates its z_stream lazily (inflateInit2_ in gz_look, deflateInit2_ in gz_init) and ends it in
+    gzclose_r / gzclose_w.  The end call may be skipped only under conditions under which the init call was skipped:
+    the state fields tested around the End call are `in_size` (buffers were never set up) plus whatever guards the Init
+    call.  An extra condition (e.g. `!direct` on the read side, where inflateInit2_ runs regardless of the format) leaks
+    the inflate state of every transparently read file."""
+    R = "REL/gz-stream-pairing"
+    for close_name, end_rx, init_name, init_rx in (("gzclose_r", r"::inflateEnd$", "gz_look", r"::inflateInit2_$"),
+                                                   ("gzclose_w", r"::deflateEnd$", "gz_init", r"::deflateInit2_$")):
+        cf, inf = P.fn(SYS + "gz::" + close_name), P.fn(SYS + "gz::" + init_name)
+        if not (ck.anchor("fn gz::%s (%s)" % (close_name, cfg), cf) and ck.anchor("fn gz::%s (%s)" % (init_name, cfg), inf)):
+            continue
+        ck.use_fn(cf)
+        ck.use_fn(inf)
+        ends, inits = cf.live_calls(end_rx), inf.live_calls(init_rx)
+        if not (ck.anchor("End call in gz::%s (%s)" % (close_name, cfg), len(ends) == 1, where(cf)) and
+                ck.anchor("Init call in gz::%s (%s)" % (init_name, cfg), len(inits) == 1, where(inf))):
+            continue
+
+        def guard_fields(fn, bb):
+            out = set()
+            for a in fn.dominating_atoms(bb):
+                s_ = sig.sig(a, fn)
+                out |= {n for n in s_.names if n in ("direct", "in_size", "out_size", "how", "input", "output", "size", "want", "level", "strategy", "eof", "past", "seek", "have", "err")}
+            return out
+        g_end = guard_fields(cf, ends[0].bb) - {"in_size"}
+        g_init = guard_fields(inf, inits[0].bb)
+        extra = sorted(g_end - g_init)
+        ck.decide(not extra, R, "%s~%s@%s" % (close_name, init_name, cfg), "End is skipped only where Init was (guards %s)" % sorted(g_end),
+                  "gz::%s ends the stream only under a condition on %s that does not guard the Init call in gz::%s: for the handles on which "
+                  "that condition fails the z_stream's state is never released" % (close_name, extra, init_name), where(cf, ends[0].line))
+
+
 def run_cfg(ck, cfg):
     P = prog(cfg)
     ck.configs.add(cfg)
@@ -435,6 +469,7 @@ def run_cfg(ck, cfg):
     error_discipline(ck, P, cfg)
     end_releases(ck, P, cfg)
     gzclose_releases(ck, P, cfg)
+    gz_stream_pairing(ck, P, cfg)
 
 
 def run(ck):
